@@ -265,15 +265,64 @@ func (e *Engine) execRecv(st *State, fr *Frame, x *ssa.UnOp) {
 	if x.CommaOk {
 		ok := e.sym.Fresh("recvok", SBool)
 		st.Assume(Implies(Not(ok), e.chanClosed(st, ch, nil)))
+		if c, _, have := e.chanElemCond(st, fr, x.X, v); have {
+			st.Assume(Implies(ok, c))
+		}
 		fr.vals[x] = VTuple{v, ok}
 		return
 	}
+	if c, _, have := e.chanElemCond(st, fr, x.X, v); have {
+		st.Assume(Or(e.chanClosed(st, ch, nil), c))
+	}
 	fr.vals[x] = v
+}
+
+// chanElemInv: the element predicate declared for the struct field the channel value was loaded from.
+func (e *Engine) chanElemInv(ch ssa.Value) (Clause, bool) {
+	u, ok := ch.(*ssa.UnOp)
+	if !ok {
+		return Clause{}, false
+	}
+	fa, ok := u.X.(*ssa.FieldAddr)
+	if !ok {
+		return Clause{}, false
+	}
+	pt, ok := under(fa.X.Type()).(*types.Pointer)
+	if !ok {
+		return Clause{}, false
+	}
+	nt, ok := pt.Elem().(*types.Named)
+	if !ok || nt.Obj().Pkg() == nil {
+		return Clause{}, false
+	}
+	ti := e.cs.TypeInvs[nt.Obj().Pkg().Path()+"."+nt.Obj().Name()]
+	if ti == nil {
+		return Clause{}, false
+	}
+	stt, ok := nt.Underlying().(*types.Struct)
+	if !ok {
+		return Clause{}, false
+	}
+	cl, ok := ti.Chans[stt.Field(fa.Field).Name()]
+	return cl, ok
+}
+
+func (e *Engine) chanElemCond(st *State, fr *Frame, ch ssa.Value, v Value) (Term, string, bool) {
+	cl, ok := e.chanElemInv(ch)
+	if !ok {
+		return Term{}, "", false
+	}
+	et := under(ch.Type()).(*types.Chan).Elem()
+	c := e.evalClause(st, fr, cl, map[string]specVal{"x": {v, et}})
+	return c, cl.Label, true
 }
 
 func (e *Engine) execSend(st *State, fr *Frame, x *ssa.Send) {
 	ch := e.get(st, fr, x.Chan).(Term)
 	e.Assert(st, fr, "send", fr.sites[x]+":notclosed", Not(e.chanClosed(st, ch, nil)))
+	if c, label, ok := e.chanElemCond(st, fr, x.Chan, e.get(st, fr, x.X)); ok {
+		e.Assert(st, fr, "send", fr.sites[x]+":"+label, c)
+	}
 	e.note("channel send: modelled as a no-op on the abstract state")
 }
 
@@ -302,6 +351,11 @@ func (e *Engine) execSelect(st *State, fr *Frame, x *ssa.Select, k func(*State))
 				v := e.freshTyped(s, et, "selrecv")
 				ok := e.sym.Fresh("recvok", SBool)
 				s.Assume(Implies(Not(ok), e.chanClosed(s, chans[i], nil)))
+				if c, _, have := e.chanElemCond(s, fr, ss.Chan, v); have {
+					// a value that was sent satisfies the channel's element predicate
+					s.Assume(Or(e.chanClosed(s, chans[i], nil), c))
+					s.Assume(Implies(ok, c))
+				}
 				if strings.HasPrefix(chans[i].S, "(ctx_done ") {
 					// nothing is ever sent on a context's Done channel: a receive means it is closed
 					s.Assume(e.chanClosed(s, chans[i], nil))
@@ -314,6 +368,9 @@ func (e *Engine) execSelect(st *State, fr *Frame, x *ssa.Select, k func(*State))
 		}
 		tu[1] = recvOk
 		if idx >= 0 && x.States[idx].Dir == types.SendOnly {
+			if c, label, have := e.chanElemCond(s, fr, x.States[idx].Chan, e.get(s, fr, x.States[idx].Send)); have {
+				e.Assert(s, fr, "send", fr.sites[x]+":"+label, c)
+			}
 			s.Assume(Not(e.chanClosed(s, chans[idx], nil)))
 			s.ghost["sent!"+fr.sites[x]] = TTrue
 		}
